@@ -141,8 +141,12 @@ class FiltersSet:
         :return: the string between quotes
         """
         if not value.startswith(('"', "'")):
-            return '"%s"' % value
+            return self.__quote(value)
         return value
+
+    def __quote(self, value: str) -> str:
+        """Return value as a quoted string (quotes and backslashes are escaped)."""
+        return '"%s"' % value.replace("\\", "\\\\").replace('"', '\\"')
 
     def __build_condition(
         self, condition: List[str], parent: commands.Command, tag: Optional[str] = None
@@ -220,7 +224,7 @@ class FiltersSet:
             elif cname == "exists":
                 cmd = commands.get_command_instance("exists", ifcontrol)
                 cmd.check_next_arg(
-                    "stringlist", "[%s]" % (",".join('"%s"' % val for val in c[1:]))
+                    "stringlist", "[%s]" % (",".join(self.__quote(val) for val in c[1:]))
                 )
             elif cname == "envelope":
                 cmd = commands.get_command_instance("envelope", ifcontrol, False)
@@ -233,11 +237,11 @@ class FiltersSet:
                 cmd.check_next_arg("tag", comp_tag)
                 cmd.check_next_arg(
                     "stringlist",
-                    "[{}]".format(",".join('"{}"'.format(val) for val in c[2])),
+                    "[{}]".format(",".join(self.__quote(val) for val in c[2])),
                 )
                 cmd.check_next_arg(
                     "stringlist",
-                    "[{}]".format(",".join('"{}"'.format(val) for val in c[3])),
+                    "[{}]".format(",".join(self.__quote(val) for val in c[3])),
                 )
             elif cname == "address":
                 cmd = commands.get_command_instance("address", ifcontrol, False)
@@ -252,7 +256,7 @@ class FiltersSet:
                         finalarg = self.__quote_if_necessary(arg)
                     else:
                         finalarg = "[{}]".format(
-                            ",".join('"{}"'.format(val) for val in arg)
+                            ",".join(self.__quote(val) for val in arg)
                         )
                     cmd.check_next_arg("stringlist", finalarg)
 
@@ -267,7 +271,7 @@ class FiltersSet:
                     comp_tag = c[2]
                 cmd.check_next_arg("tag", comp_tag)
                 cmd.check_next_arg(
-                    "stringlist", "[%s]" % (",".join('"%s"' % val for val in c[3:]))
+                    "stringlist", "[%s]" % (",".join(self.__quote(val) for val in c[3:]))
                 )
             elif cname == "currentdate":
                 cmd = commands.get_command_instance("currentdate", ifcontrol, False)
@@ -291,7 +295,7 @@ class FiltersSet:
                 next_arg_pos += 1
                 cmd.check_next_arg(
                     "stringlist",
-                    "[%s]" % (",".join('"%s"' % val for val in c[next_arg_pos:])),
+                    "[%s]" % (",".join(self.__quote(val) for val in c[next_arg_pos:])),
                 )
             else:
                 # header command fallback
@@ -319,6 +323,7 @@ class FiltersSet:
                     atype = "number"
                 elif isinstance(arg, list):
                     atype = "stringlist"
+                    arg = [self.__quote_if_necessary(item) for item in arg]
                 elif arg.startswith(":"):
                     atype = "tag"
                 else:
